@@ -31,9 +31,9 @@ Record pstate := {
   cap : nat           (* frame_data_len (DATA) *)
 }.
 
-(* PduStorage::new: zeroed memory, so a never-used slot has key 0, not 0xff00 *)
+(* PduStorage::new + try_split: zeroed memory, first-PDU keys initialised to the empty marker *)
 Definition slot0 (cap : nat) : slot :=
-  {| sst := SNone; skey := 0;
+  {| sst := SNone; skey := key_empty;
      sfr := {| fbuf := zeros (cap - eth_overhead); fused := 0; fcount := 0; flast := None |};
      shdr := [0; 0] |}.
 
@@ -51,6 +51,10 @@ Definition set_st (s : pstate) (i : nat) (st : N) : pstate :=
 (* compare_exchange on the status *)
 Definition cas (s : pstate) (i : nat) (from to : N) : option pstate :=
   if sst (get s i) =? from then Some (set_st s i to) else None.
+
+(* FrameBox::clear_first_pdu *)
+Definition op_drop_clear (s : pstate) (i : nat) : pstate :=
+  let x := get s i in set s i {| sst := sst x; skey := key_empty; sfr := sfr x; shdr := shdr x |}.
 
 (* ---------- errors / results as numbers ---------- *)
 Inductive perror :=
@@ -100,15 +104,17 @@ Definition op_push_rest (s : pstate) (i : nat) (c : command) (b : list N) : psta
   | _ => (s1, r)
   end.
 
+(* CreatedFrame::drop: only a frame still in Created is released, its key forgotten first *)
+Definition op_drop_created (s : pstate) (i : nat) : pstate :=
+  if sst (get s i) =? SCreated then set_st (op_drop_clear s i) i SNone else s.
+
 (* mark_sendable: store Sendable; the consumed CreatedFrame's Drop then tries Created->None *)
 Definition op_mark (s : pstate) (i : nat) : pstate :=
   let x := get s i in
   let s0 := set s i {| sst := sst x; skey := skey x; sfr := sfr x; shdr := ecat_header (fused (sfr x)) |} in
   let s1 := set_st s0 i SSendable in
-  match cas s1 i SCreated SNone with Some s2 => s2 | None => s1 end.
+  op_drop_created s1 i.
 
-Definition op_drop_created (s : pstate) (i : nat) : pstate :=
-  match cas s i SCreated SNone with Some s2 => s2 | None => s end.
 
 (* ---------- transmit ---------- *)
 Fixpoint tx_scan (s : pstate) (i : nat) (n : nat) : pstate * option nat :=
@@ -199,7 +205,7 @@ Definition op_poll (s : pstate) (i : nat) (expired : bool) (retries : nat)
     let was := sst (get s i) in
     if expired then
       match retries with
-      | O => (set_st s i SNone, PollErr ETimeout, retries)
+      | O => (set_st (op_drop_clear s i) i SNone, PollErr ETimeout, retries)
       | S r =>
         let s1 := set_st s i SSendable in
         (s1,
@@ -212,21 +218,19 @@ Definition op_poll (s : pstate) (i : nat) (expired : bool) (retries : nat)
        then PollPending else PollErr EInvalidFrameState, retries)
   end.
 
-(* dropping a pending future: unconditional store *)
-Definition op_drop_fut (s : pstate) (i : nat) : pstate := set_st s i SNone.
+(* dropping a pending future: key forgotten, then an unconditional store *)
+Definition op_drop_fut (s : pstate) (i : nat) : pstate := set_st (op_drop_clear s i) i SNone.
 
-(* dropping a ReceivedFrame: CAS RxProcessing -> None (unwrap), then clear the key *)
+(* dropping a ReceivedFrame: clear the key, then CAS RxProcessing -> None (unwrap) *)
 Definition op_drop_received (s : pstate) (i : nat) : res perror pstate :=
-  match cas s i SRxProcessing SNone with
-  | Some s1 =>
-    let x := get s1 i in
-    Ok (set s1 i {| sst := sst x; skey := key_empty; sfr := sfr x; shdr := shdr x |})
+  match cas (op_drop_clear s i) i SRxProcessing SNone with
+  | Some s1 => Ok s1
   | None => Panic 1
   end.
 
-(* PduLoop::reset: counters and statuses, keys are left alone *)
+(* PduLoop::reset: counters, statuses and keys *)
 Definition op_reset (s : pstate) : pstate :=
-  {| slots := map (fun x => {| sst := SNone; skey := skey x; sfr := sfr x; shdr := shdr x |}) (slots s);
+  {| slots := map (fun x => {| sst := SNone; skey := key_empty; sfr := sfr x; shdr := shdr x |}) (slots s);
      fidx := 0; pidx := 0; cap := cap s |}.
 
 (* ---------- the same operations split at the points where another party can get in ----------
@@ -260,9 +264,6 @@ Definition op_rx_end (s : pstate) (k : nat) : pstate * rx_result :=
 Definition op_drop_release (s : pstate) (i : nat) : res perror pstate :=
   match cas s i SRxProcessing SNone with Some s1 => Ok s1 | None => Panic 1 end.
 
-Definition op_drop_clear (s : pstate) (i : nat) : pstate :=
-  let x := get s i in set s i {| sst := sst x; skey := key_empty; sfr := sfr x; shdr := shdr x |}.
-
 (* poll, first half: the CAS; returns the status it saw when the CAS failed *)
 Definition op_poll_begin (s : pstate) (i : nat) : pstate * option N :=
   match cas s i SRxDone SRxProcessing with
@@ -279,7 +280,7 @@ Definition op_poll_end (s : pstate) (i : nat) (was : N) (expired : bool) (retrie
   : pstate * poll_result * nat :=
   if expired then
     match retries with
-    | O => (set_st s i SNone, PollErr ETimeout, retries)
+    | O => (set_st (op_drop_clear s i) i SNone, PollErr ETimeout, retries)
     | S r => (set_st s i SSendable, pending_or_err was, r)
     end
   else (s, pending_or_err was, retries).
